@@ -391,3 +391,37 @@ Qed.
 
 Lemma std_new_keeps_fixed skip : read (standard_complex skip ex_s) 0%nat = -1.
 Proof. rewrite std_fixed_untouched; [reflexivity|]. cbn. intros [H|[]]; discriminate. Qed.
+
+(* ---------- the phase wrap of std_polar (stored since /repo 7a94ee8) ---------- *)
+Lemma trig_plus_2PI x : cos (x + 2 * PI) = cos x /\ sin (x + 2 * PI) = sin x.
+Proof. rewrite cos_plus, sin_plus, cos_2PI, sin_2PI. split; ring. Qed.
+Lemma trig_minus_2PI x : cos (x - 2 * PI) = cos x /\ sin (x - 2 * PI) = sin x.
+Proof.
+  destruct (trig_plus_2PI (x - 2 * PI)) as [A B]. replace (x - 2 * PI + 2 * PI) with x in A, B by ring.
+  split; symmetry; assumption.
+Qed.
+Lemma wrap1_trig x : cos (wrap1 x) = cos x /\ sin (wrap1 x) = sin x.
+Proof.
+  unfold wrap1. destruct (Rlt_dec x (- PI)); [apply trig_plus_2PI|].
+  destruct (Rle_dec PI x); [apply trig_minus_2PI|split; reflexivity].
+Qed.
+(* the standardised phase describes the same complex number ... *)
+Theorem wrap_phase_same_value x : cos (wrap_phase x) = cos x /\ sin (wrap_phase x) = sin x.
+Proof.
+  unfold wrap_phase. destruct (wrap1_trig (wrap1 (wrap1 x))) as [A B]. destruct (wrap1_trig (wrap1 x)) as [C D].
+  destruct (wrap1_trig x) as [E F]. split; congruence.
+Qed.
+(* ... and lies in [-pi, pi) for every phase the three steps can reach *)
+Lemma wrap1_step x a : 0 <= a -> - (2 * a + 3) * PI <= x < (2 * a + 3) * PI ->
+  - (2 * a + 1) * PI <= wrap1 x < (2 * a + 1) * PI.
+Proof.
+  intros Ha [H1 H2]. pose proof PI_RGT_0 as P. unfold wrap1.
+  destruct (Rlt_dec x (- PI)) as [L|L]; [|destruct (Rle_dec PI x) as [G|G]]; nra.
+Qed.
+Theorem wrap_phase_range x : - 7 * PI <= x < 7 * PI -> - PI <= wrap_phase x < PI.
+Proof.
+  intros H. unfold wrap_phase.
+  assert (A : - (2 * 2 + 1) * PI <= wrap1 x < (2 * 2 + 1) * PI) by (apply wrap1_step; [lra|]; lra).
+  assert (B : - (2 * 1 + 1) * PI <= wrap1 (wrap1 x) < (2 * 1 + 1) * PI) by (apply wrap1_step; [lra|]; lra).
+  pose proof (wrap1_step (wrap1 (wrap1 x)) 0 ltac:(lra)) as C. lra.
+Qed.
